@@ -129,7 +129,7 @@ impl Config {
 
 #[derive(Clone, Debug, Serialize, Deserialize, PartialEq)]
 pub enum Signal {
-    /// x[n] = n in every channel
+    /// x[n] = n + 1 in every channel (so that the zero pre-roll is distinguishable from the first sample)
     Index,
     Noise { seed: u64 },
     /// sparse unit impulses on a noise floor of amplitude `floor`
@@ -144,7 +144,7 @@ impl Signal {
     pub fn at(&self, ch: usize, n: u64) -> f64 {
         use crate::rng::{mix, noise};
         match self {
-            Signal::Index => n as f64,
+            Signal::Index => n as f64 + 1.0,
             Signal::Noise { seed } => noise(*seed, ch, n),
             Signal::Impulses { seed, period, floor } => {
                 let p = (*period).max(2) as u64;
@@ -249,6 +249,8 @@ pub enum CtlVal {
     Huge,
     /// arbitrary absolute value outside the range by a factor
     Outside(f64),
+    /// exact value by bit pattern (used by twins: "the equivalent absolute call")
+    Bits(u64),
 }
 
 #[derive(Clone, Debug, Serialize, Deserialize, PartialEq)]
